@@ -317,6 +317,10 @@ extern "C" void c02_run()
       items.push_back(make_item(i, &p->items[i]));
     for (int i = 0; i < p->burst; i++)
       items.push_back(new SchedItem(C02_MAXITEMS + i, nullptr));
+    if (p->reinit_threads > 0) {
+      SimTag t(SIM_TAG_INFRA);
+      initTaskingSystem(p->reinit_threads);
+    }
     bool any = true;
     while (any) {
       any = false;
@@ -335,6 +339,10 @@ extern "C" void c02_run()
     }
     for (int i = 0; i < p->burst; i++)
       items.push_back(new SchedItem(C02_MAXITEMS + i, nullptr));
+    if (p->reinit_threads > 0) {
+      SimTag t(SIM_TAG_INFRA);
+      initTaskingSystem(p->reinit_threads);
+    }
   }
   sim_phase(2);
   c02_drain();
